@@ -15,7 +15,7 @@ for n in range(0, 13):
         tiers=('quick', 'thorough') if n in (0, 1, 5, 8) else ('thorough',), witness=(n in (5, 8)),
         bound='every Cookie header text of exactly %d bytes (all 256^%d contents) in an exact-size heap block' % (n, n),
         desc='CookieJar::addFromRaw: memory safety, termination, only runtime_error; pairs handed to the jar == reference splitter'))
-for n in range(0, 12):
+for n in range(0, 11):   # n = 11 can hold more distinct attribute names than the ghost map of the harness (capacity 3): harness bound, not run
     HARNESSES.append(dict(name='fromraw_n%d' % n, units=['cookie'], file='c17_cookie.c', defs={'H_SAFE': None, 'NN': n}, unwind=n + 3, unwindset=US, outer_unwind=max(2, n - 1),
         tiers=('quick', 'thorough') if n in (0, 2, 7) else ('thorough',), witness=(n in (7, 10)),
         bound='every Set-Cookie text of exactly %d bytes in an exact-size heap block; FullDate parser arbitrary' % n,
@@ -27,7 +27,7 @@ def rt(attrs, tiers, witness=False, extra=None, madig=3):
     d = {'H_RT': None, 'ATTRS': attrs, 'MADIG': madig}
     if extra: d.update(extra)
     nm = 'rt_a%d%s' % (attrs, '_intmax' if extra and 'MA_INTMAX' in extra else '')
-    return dict(name=nm, units=['cookie'], file='c17_cookie.c', defs=d, unwind=14, unwindset=US, outer_unwind=bin(attrs).count('1') + 2, timeout=1500,
+    return dict(name=nm, units=['cookie'], file='c17_cookie.c', defs=d, unwind=14, unwindset=US, outer_unwind=bin(attrs).count('1') + 2, timeout=3000,
         tiers=tiers, witness=witness,
         bound='attribute set %s; name 1..2 token octets, value/Path/Domain/extension strings 0..2 cookie octets (all contents); Max-Age %s' % (
             '+'.join(n_ for b_, n_ in ((1, 'Path'), (2, 'Domain'), (4, 'Max-Age'), (8, 'Secure'), (16, 'HttpOnly'), (32, 'ext'), (64, 'ext2')) if attrs & b_) or 'none',
